@@ -22,6 +22,11 @@ pub fn handle(req: &Value) -> Value {
             let (raw, cleaned) = libmathcat::verif::verif_last_braille();
             json!({"r":"ok","v":[raw, cleaned]})
         }
+        "numpat" => {
+            let g = |k: &str| req.get(k).and_then(|v| v.as_str()).unwrap_or("").to_string();
+            let r = libmathcat::verif::verif_number_patterns(&g("text"), &g("block"), &g("decimal"));
+            json!({"r":"ok","v":r.to_vec()})
+        }
         _ => json!({"r":"err","kind":"bad-op","msg":format!("unknown hook '{}'", which)}),
     }
 }
